@@ -64,6 +64,11 @@ def jobs(tier, seed):
         masks = list(range(1 << 10))
         for i in range(0, len(masks), 64):
             out.append({'k': 5, 'masks': masks[i:i + 64], 'pres': ['edges'], 'vclasses': ['generic'], 'seed': seed, 'sizes': ['main'], 'orders': 'some'})
+    # the same 1024 graphs with two attributes of size 36 (tables and separators beyond 1000 cells): anything in the tree construction
+    # or the message schedule that depends on table *sizes* rather than on the structure alone
+    masks = list(range(1 << 10))
+    for i in range(0, len(masks), 32):
+        out.append({'k': 5, 'masks': masks[i:i + 32], 'pres': ['edges'], 'vclasses': ['generic'], 'seed': seed, 'sizes': ['big'], 'orders': 'some'})
     if tier == 'thorough' and os.environ.get('PYTHONHASHSEED', '0') == '0':
         masks = list(range(1 << 10))
         for i in range(0, len(masks), 8):
@@ -190,7 +195,7 @@ def explore_structure(acc, k, mask, pres, sizes_name, vclasses, seed, only=None,
     `only` restricts to a single (order, vclass, schedule) for replay."""
     from mbi import Domain, GraphicalModel
     attrs = S.ATTRS[:k]
-    sizes = (S.SIZES_MAIN if sizes_name == 'main' else S.SIZES_ONE)[:k]
+    sizes = {'main': S.SIZES_MAIN, 'one': S.SIZES_ONE, 'big': S.SIZES_BIG}[sizes_name][:k]
     edges = S.graph_by_mask(k, mask)
     cliques = S.rename(S.present(attrs, edges, pres), naming)
     attrs = S.rename(attrs, naming)   # domain order stays, names no longer sort in domain order
